@@ -1,23 +1,25 @@
 """Resource-directory driver (property C20): replays an operation history
-(register / update POST / PUT / DELETE / clock steps) as raw CoAP datagrams
-against a real server Context carrying aiocoap.cli.rd.StandaloneResourceDirectory
-on the fake network under virtual time, performs an endpoint lookup and a
-resource lookup after every step, and records the events in the vocabulary of
+(register / simple registration / update POST / PUT / DELETE / filtered and
+paged lookups / clock steps) as raw CoAP datagrams against a real server
+Context carrying aiocoap.cli.rd.StandaloneResourceDirectory on the fake
+network under virtual time, performs an endpoint lookup and a resource lookup
+after every step, and records the events in the vocabulary of
 spec/ResourceDirectoryObs.tla.
 
 Python only builds requests and parses responses / link-format payloads into
 records; what a lookup *should* contain is computed by TLC from the trace
-(ResourceDirectoryTrace.tla).
+(ResourceDirectoryTrace.tla).  What the small numbers of a history stand for
+on the wire (link sets, extra attributes, explicit bases, peers, exotic
+lifetimes) is not defined here either: it is the table TLC prints for
+VocabDump of spec/ResourceDirectoryVocab.tla (set_vocab).
 
-Time unit of histories and traces: one quantum = 15 s (so lt >= 60 s as
-RFC 9176 requires is >= 4 quanta and the 15 s grace period is 1 quantum)."""
+Time unit of histories and traces: one quantum = 15 s (so that ordinary
+lifetimes and the 15 s grace period are whole numbers)."""
 
 import logging
-import re
 
 from . import wire, MachineryError
 from .sut import World
-from .fakenet import sockaddr
 
 QUANTUM = 15  # seconds per model quantum
 LINKFORMAT = 40
@@ -25,24 +27,30 @@ LINKFORMAT = 40
 # request forms: (operation, variant) -> group used for blame / signatures.
 # The stage a form fails in is the model's business (ResourceDirectory.tla);
 # this table only says how the request is built.
+_RSVD_G = {"rsvd_rt": "bad-param", "rsvd_page": "bad-param", "rsvd_count": "bad-param",
+           "rsvd_href": "bad-param", "rsvd_anchor": "bad-param"}
 GROUPS = {
-    "reg": {
+    "reg": dict({
         "ok": "ok",
         "nocf": "bad-body", "badcf": "bad-body", "badlf": "bad-body",
         "noep": "bad-key", "ep2": "bad-key", "d2": "bad-key", "proxy": "bad-key",
         "ltnan": "bad-param", "lt2": "bad-param", "base2": "bad-param",
-        "rsvd_rt": "bad-param", "rsvd_page": "bad-param", "rsvd_count": "bad-param",
-        "rsvd_href": "bad-param", "rsvd_anchor": "bad-param",
         "ltnoval": "lt-novalue",
-    },
-    "upd": {
+    }, **_RSVD_G),
+    "sreg": dict({
+        "ok": "ok", "okwkc": "ok",
+        "sbase": "bad-param",
+        "fetch404": "fetch-failed", "fetchcf": "fetch-failed", "fetchbadlf": "fetch-failed",
+        "noep": "bad-key", "ep2": "bad-key", "d2": "bad-key", "proxy": "bad-key",
+        "ltnan": "bad-param", "lt2": "bad-param",
+        "ltnoval": "lt-novalue",
+    }, **_RSVD_G),
+    "upd": dict({
         "ok": "ok",
         "ep": "bad-param", "d": "bad-param", "ltnan": "bad-param", "lt2": "bad-param", "base2": "bad-param",
-        "rsvd_rt": "bad-param", "rsvd_page": "bad-param", "rsvd_count": "bad-param",
-        "rsvd_href": "bad-param", "rsvd_anchor": "bad-param",
         "ltnoval": "lt-novalue",
         "body": "body", "cfbody": "body", "cf": "body",
-    },
+    }, **_RSVD_G),
     "put": {
         "ok": "ok",
         "nocf": "bad-body", "badlf": "bad-body",
@@ -54,18 +62,53 @@ GROUPS = {
 
 RSVD = {"rsvd_rt": "rt=core.x", "rsvd_page": "page=0", "rsvd_count": "count=1", "rsvd_href": "href=/x", "rsvd_anchor": "anchor=/y"}
 
-LINKSETS = {0: (), 1: (("a", "r1"),), 2: (("a", "r2"), ("b", "r1")), 3: (("b", "r2"),)}
+# names the model writes in ASCII (TLC's parser and printer are not safe for other characters);
+# on the wire and in the recorded events the real strings are used
+NAME_WIRE = {"~nfc": "\u00e91", "~nfd": "e\u03011"}
+
+VOCAB = None
 
 
-def links_payload(ep, d, links):
-    """Every link carries its owner (ep, d) in its path so that a resource
-    lookup can be attributed; the sets are those of LinksOf in the spec."""
-    dd = d or "-"
-    return ",".join('</%s/%s/%s>;rt="%s"' % (ep, dd, name, rt) for name, rt in LINKSETS[links]).encode()
+def set_vocab(v):
+    """v: the value TLC printed for VocabDump (tlaval form: records -> dict,
+    sequences -> list, sets -> frozenset)."""
+    global VOCAB
+    lx = {}
+    for i, r in enumerate(v["lx"], 1):
+        if int(r["s"]) != r["q"] * QUANTUM + r["r"] or not 0 <= r["r"] < QUANTUM:
+            raise MachineryError("vocabulary: lifetime %r is not q * %d + r" % (r, QUANTUM))
+        lx[i] = r["s"]
+    VOCAB = {
+        "src": {i: (r["host"], r["port"], r["uri"]) for i, r in enumerate(v["src"], 1)},
+        "base": {i: u for i, u in enumerate(v["base"], 1)},
+        "x": {i: [tuple(a) for a in x] for i, x in enumerate(v["x"], 1)},
+        "lx": lx,
+        "links": {i: [(l["href"], [tuple(a) for a in l["attrs"]]) for l in ls] for i, ls in enumerate(v["links"], 1)},
+    }
+    VOCAB["x"][0] = []
+    VOCAB["links"][0] = []
+    return VOCAB
 
 
-def base_uri(n):
-    return "coap://b%d.example" % n
+def fmt_link(href, attrs):
+    out = "<%s>" % href
+    for a in attrs:
+        if len(a) == 1:
+            out += ";" + a[0]
+        elif a[1].isdigit():
+            out += ";%s=%s" % a
+        else:
+            out += ';%s="%s"' % a
+    return out
+
+
+def links_payload(links):
+    return ",".join(fmt_link(h, a) for h, a in VOCAB["links"][links]).encode("utf8")
+
+
+def src_addr(src):
+    host, port, _ = VOCAB["src"].get(src, VOCAB["src"][1])
+    return (host, port, 0, 0)
 
 
 # -- link-format parsing (independent of aiocoap) ---------------------------------
@@ -113,35 +156,50 @@ def parse_link_format(text):
     return out
 
 
-_re_expl = re.compile(r"^coap://b(\d+)\.example$")
-_re_src = re.compile(r"^coap://\[2001:db8::([0-9a-f]+)\]$")
-_re_abs = re.compile(r"^(coap://[^/]+)(/.*)$")
+def _pairs(attrs):
+    """attributes in a canonical order; an attribute without value is [key]"""
+    return sorted([k] if v is None else [k, v] for k, v in attrs)
 
 
-def base_id(uri):
-    m = _re_expl.match(uri or "")
-    if m:
-        return int(m.group(1))
-    m = _re_src.match(uri or "")
-    if m:
-        return 100 + int(m.group(1), 16)
-    return 999
+E0 = {"k": "", "t": 0, "src": 0, "ep": "", "d": "", "loc": 0, "lt": 0, "lx": 0, "base": 0, "x": 0, "links": 0,
+      "var": "", "vg": "", "cls": 0, "code": 0, "n": 0, "eps": [], "res": [],
+      "iface": "", "crit": [], "cnt": 0, "first": [], "pages": [], "pcls": 0}
+
+
+def flk_group(st):
+    """group of a filtered lookup for signatures: interface / number of criteria (+ paged)"""
+    return "%s/%d%s" % (st.get("iface"), len(st.get("crit") or ()), "/paged" if st.get("cnt") else "")
 
 
 def run_history(hist):
     """hist: {"steps": [step, ...]} with step = dict(k, t, src, ep, d, loc, lt,
-    base, x, links, var, n) as in the model's `hist' (k = reg|upd|put|del|adv),
-    optionally `id' (registration steps) and `ref' (requests to a location: id
-    of the registration step whose location is meant).
+    lx, base, x, links, var, n, iface, crit, cnt) as in the model's `hist'
+    (k = reg|sreg|upd|put|del|flk|adv), optionally `id' (registration steps)
+    and `ref' (requests to a location, criteria href=<location>: id of the
+    registration step whose location is meant).
     Returns {"events": [...], "meta": {...}}; every event has the same fields."""
+    if VOCAB is None:
+        raise MachineryError("rddrive: vocabulary not set")
     w = World()
+
+    async def resolve_literal(host, port, **kw):
+        # the directory resolves the registrant's address for its fetch (simple registration) through the
+        # loop's resolver, which would run in a thread the virtual clock does not wait for; the addresses
+        # are IP literals
+        import socket
+
+        return [(socket.AF_INET6, socket.SOCK_DGRAM, socket.IPPROTO_UDP, "", (host, port or 5683, 0, 0))]
+
+    w.loop.getaddrinfo = resolve_literal
+    # asyncio runs a timer when it is due before now + clock resolution; at instants around 2^32 s (the largest
+    # lifetime) 1 ns is below the spacing of floats and a timer due exactly now would never run
+    w.loop._clock_resolution = 1e-5
     sent = []
     w.net.on_sent = sent.append
     events = []
     locs = {}  # Location-Path tuple -> symbolic number (order of first appearance)
     loc_paths = {}
-    owner = {}  # symbolic loc -> (ep, d) of the registration request that got it
-    meta = {"codes": [], "log_errors": [], "loop_exceptions": [], "drift": []}
+    meta = {"codes": [], "log_errors": [], "loop_exceptions": [], "drift": [], "fetches": 0, "blockwise_lookups": 0}
 
     def sym(path):
         path = tuple(path)
@@ -153,13 +211,12 @@ def run_history(hist):
     def now_q():
         t = w.loop.time()
         q = int(round(t / QUANTUM))
-        if abs(q * QUANTUM - t) > 1e-9:
+        if abs(q * QUANTUM - t) > 1e-6:
             raise MachineryError("rddrive: off-grid instant %r" % t)
         return q
 
     def ev(k, **kw):
-        e = {"k": k, "t": now_q(), "src": 0, "ep": "", "d": "", "loc": 0, "lt": 0, "base": 0, "x": 0, "links": 0,
-             "var": "", "vg": "", "cls": 0, "code": 0, "n": 0, "eps": [], "res": []}
+        e = dict(E0, k=k, t=now_q(), eps=[], res=[], crit=[], first=[], pages=[])
         e.update(kw)
         events.append(e)
         return e
@@ -183,79 +240,168 @@ def run_history(hist):
         res_path = list(site.res_lookup_path)
         prefix = tuple(site.common_rd.entity_prefix)
 
-        async def request(code, path, query=(), payload=b"", cf=None, src=1):
+        def send(mtype, code, mid, tok, opts, payload, addr):
+            w.net.inject(sock, wire.encode(mtype, code, mid, tok, opts, payload), addr)
+
+        async def exchange(code, opts, payload, addr, fetch=None):
+            """One request from the scripted peer at addr; returns the response
+            (or None).  While waiting, requests the directory sends to a peer
+            (simple registration: GET /.well-known/core) are answered with
+            fetch = (code, content format | None, payload)."""
             state["mid"] = (state["mid"] + 1) & 0xFFFF
-            tok = state["mid"].to_bytes(2, "big")
-            opts = [(wire.URI_PATH, p.encode()) for p in path] + [(wire.URI_QUERY, q.encode()) for q in query]
-            if cf is not None:
-                opts.append((wire.CONTENT_FORMAT, wire.uint(cf)))
+            mid = state["mid"]
+            tok = mid.to_bytes(2, "big")
             n0 = len(sent)
-            w.net.inject(sock, wire.encode(wire.CON, code, state["mid"], tok, opts, payload), sockaddr(src))
-            await w.loop.settle()
-            for rec in sent[n0:]:
-                m = wire.decode(rec["data"])
-                if m["token"] == tok and m["code"] != 0:
-                    b2 = wire.opt(m, wire.BLOCK2)
-                    if b2 is not None and wire.unblock(b2)[1]:
-                        raise MachineryError("rddrive: block-wise response; keep histories small")
-                    return m
+            send(wire.CON, code, mid, tok, opts, payload, addr)
+            seen = n0
+            for _ in range(8):
+                await w.loop.settle()
+                again = False
+                for rec in sent[seen:]:
+                    m = wire.decode(rec["data"])
+                    if m["token"] == tok and m["code"] >= 64 and rec["to"][:2] == addr[:2]:
+                        if m["type"] == wire.CON:
+                            send(wire.ACK, 0, m["mid"], b"", [], b"", addr)
+                            await w.loop.settle()
+                        return m
+                    if 0 < m["code"] < 32 and m["type"] in (wire.CON, wire.NON):
+                        # the directory asks a peer for something
+                        meta["fetches"] += 1
+                        path = [o.decode() for o in wire.opts(m, wire.URI_PATH)]
+                        if fetch is None or path != [".well-known", "core"] or m["code"] != wire.GET:
+                            meta["drift"].append("unexpected request from the directory: code %d path %r" % (m["code"], path))
+                            fc, fcf, fp = wire.code(4, 4), None, b""
+                        else:
+                            fc, fcf, fp = fetch
+                        o2 = [] if fcf is None else [(wire.CONTENT_FORMAT, wire.uint(fcf))]
+                        send(wire.ACK if m["type"] == wire.CON else wire.NON, fc, m["mid"], m["token"], o2, fp, rec["to"])
+                        again = True
+                seen = len(sent)
+                if not again:
+                    break
             return None
 
-        got = {}  # id of a registration step -> Location-Path it obtained in this run
+        async def request(code, path, query=(), payload=b"", cf=None, src=1, fetch=None):
+            opts = [(wire.URI_PATH, p.encode("utf8")) for p in path] + [(wire.URI_QUERY, q.encode("utf8")) for q in query]
+            if cf is not None:
+                opts.append((wire.CONTENT_FORMAT, wire.uint(cf)))
+            addr = src_addr(src)
+            m = await exchange(code, opts, payload, addr, fetch)
+            if m is None:
+                return None
+            b2 = wire.opt(m, wire.BLOCK2)
+            if b2 is not None and wire.unblock(b2)[1]:
+                # block-wise response (long lookup results): fetch the rest
+                meta["blockwise_lookups"] += 1
+                body = m["payload"]
+                num, more, szx = wire.unblock(b2)
+                while more:
+                    num += 1
+                    mm = await exchange(code, opts + [(wire.BLOCK2, wire.block(num, 0, szx))], b"", addr)
+                    if mm is None or mm["code"] != m["code"] or wire.opt(mm, wire.BLOCK2) is None:
+                        raise MachineryError("rddrive: block-wise transfer of a response broke off at block %d" % num)
+                    n2, more, _ = wire.unblock(wire.opt(mm, wire.BLOCK2))
+                    if n2 != num:
+                        raise MachineryError("rddrive: asked for block %d, got %d" % (num, n2))
+                    body += mm["payload"]
+                    if num > 64:
+                        raise MachineryError("rddrive: response of more than 64 blocks")
+                m = dict(m, payload=body)
+            return m
 
-        def target(st):
-            """(path, symbolic number) a request of step st is aimed at: the
-            location the referenced registration step obtained in *this* run
-            (`ref'), else the symbolic location `loc', else a path that does
-            not exist (numbers >= 900 are not locations)."""
-            ref = st.get("ref")
+        got = {}  # id of a registration step -> Location-Path it obtained in this run
+        pending = {}  # (ep, d) -> id of a simple registration step waiting for its location
+
+        def target_of(ref, loc):
+            """(path, symbolic number) a request is aimed at: the location the
+            referenced registration step obtained in *this* run (`ref'), else
+            the symbolic location `loc', else a path that does not exist
+            (numbers >= 900 are not locations)."""
             if ref is not None:
                 path = got.get(ref)
             else:
-                path = loc_paths.get(st["loc"])
+                path = loc_paths.get(loc)
             if path is None:
-                return list(prefix + ("nx%d" % st["loc"], "")), 900 + st["loc"]
+                return list(prefix + ("nx%d" % loc, "")), 900 + loc
             return list(path), sym(path)
 
-        async def lookups():
-            m = await request(wire.GET, ep_path)
-            e = ev("lkep", code=m["code"] if m else 0, cls=(m["code"] >> 5) if m else 0)
-            if m and m["code"] == wire.CONTENT:
-                if wire.from_uint(wire.opt(m, wire.CONTENT_FORMAT, b"")) != LINKFORMAT:
-                    meta["drift"].append("endpoint lookup answered with content format %r" % wire.opt(m, wire.CONTENT_FORMAT))
-                links = parse_link_format(m["payload"].decode("utf8"))
-                e["n"] = len(links)
-                for href, attrs in links:
-                    a = dict(attrs)
-                    extra = [k for k, _ in attrs if k not in ("ep", "d", "base", "rt", "et")]
-                    x = 0
-                    if "et" in a:
-                        mm = re.match(r"^v(\d+)$", a["et"] or "")
-                        x = int(mm.group(1)) if mm else 999
-                    if extra or len(attrs) != len(a):
-                        x = 998
-                    rec = {"loc": sym(href.split("/")[1:]), "ep": a.get("ep") or "", "d": a.get("d") or "",
-                           "base": base_id(a.get("base")), "x": x}
-                    e["eps"].append(rec)
-            m = await request(wire.GET, res_path)
-            e = ev("lkres", code=m["code"] if m else 0, cls=(m["code"] >> 5) if m else 0)
-            if m and m["code"] == wire.CONTENT:
-                links = parse_link_format(m["payload"].decode("utf8"))
-                e["n"] = len(links)
-                for href, attrs in links:
-                    mm = _re_abs.match(href)
-                    base, path = (mm.group(1), mm.group(2)) if mm else ("", href)
-                    parts = path.split("/")[1:]
-                    a = dict(attrs)
-                    other = sorted(k for k, _ in attrs if k != "rt")
-                    if len(parts) == 3:
-                        oep, od, name = parts[0], ("" if parts[1] == "-" else parts[1]), parts[2]
+        def target(st):
+            return target_of(st.get("ref"), st["loc"])
+
+        def ep_records(m):
+            out = []
+            for href, attrs in parse_link_format(m["payload"].decode("utf8")):
+                first = {}
+                rest = []
+                for k, v in attrs:
+                    if k in ("ep", "d", "base", "rt") and k not in first and v is not None:
+                        first[k] = v
                     else:
-                        oep, od, name = "?", "?", path
-                    link = "%s:%s" % (name, a.get("rt"))
-                    if other:
-                        link += ";" + ",".join(other)
-                    e["res"].append({"base": base_id(base), "ep": oep, "d": od, "link": link})
+                        rest.append((k, v))
+                out.append({"loc": sym(href.split("/")[1:]), "ep": first.get("ep", ""), "d": first.get("d", ""),
+                            "base": first.get("base", ""), "xs": _pairs(rest)})
+            return out
+
+        def res_records(m):
+            out = []
+            for href, attrs in parse_link_format(m["payload"].decode("utf8")):
+                anchors = [v for k, v in attrs if k == "anchor" and v is not None]
+                rest = [(k, v) for k, v in attrs if not (k == "anchor" and v is not None)]
+                if len(anchors) > 1:
+                    rest += [("anchor", a) for a in anchors[1:]]
+                out.append({"href": href, "anchor": anchors[0] if anchors else "", "attrs": _pairs(rest)})
+            return out
+
+        async def lookup(iface, query=()):
+            m = await request(wire.GET, ep_path if iface == "ep" else res_path, query)
+            if m is None:
+                return 0, 0, []
+            if m["code"] != wire.CONTENT:
+                return m["code"], m["code"] >> 5, []
+            if wire.from_uint(wire.opt(m, wire.CONTENT_FORMAT, b"")) != LINKFORMAT:
+                meta["drift"].append("%s lookup answered with content format %r" % (iface, wire.opt(m, wire.CONTENT_FORMAT)))
+            return m["code"], 2, (ep_records(m) if iface == "ep" else res_records(m))
+
+        async def lookups():
+            code, cls, recs = await lookup("ep")
+            ev("lkep", code=code, cls=cls, n=len(recs), eps=recs)
+            for r in recs:
+                sid = pending.pop((r["ep"], r["d"]), None)
+                if sid is not None:
+                    got[sid] = loc_paths[r["loc"]]
+            pending.clear()
+            code, cls, recs = await lookup("res")
+            ev("lkres", code=code, cls=cls, n=len(recs), res=recs)
+
+        async def filtered(st):
+            iface = st["iface"]
+            crit, query = [], []
+            for c in st["crit"]:
+                c = {"k": c["k"], "v": c.get("v", ""), "w": int(c.get("w", 0)), "loc": c.get("loc", 0), "ref": c.get("ref")}
+                if c["loc"] or c["ref"] is not None:
+                    tpath, tloc = target_of(c["ref"], c["loc"])
+                    c["loc"], c["k"], c["v"], c["w"] = tloc, "href", "", 0
+                    query.append("href=/" + "/".join(tpath))
+                else:
+                    query.append("%s=%s%s" % (c["k"], c["v"], "*" if c["w"] else ""))
+                del c["ref"]
+                crit.append(c)
+            cnt = st.get("cnt", 0)
+            code, cls, recs = await lookup(iface, query)
+            e = ev("flk", iface=iface, crit=crit, cnt=cnt, code=code, cls=cls, n=len(recs))
+            e["eps" if iface == "ep" else "res"] = recs
+            if cnt and cls == 2:
+                worst = 2
+                c1, k1, first = await lookup(iface, query + ["count=%d" % cnt])
+                worst = max(worst, k1) if k1 else 5
+                e["first"] = first
+                pages = []
+                for page in range(len(recs) // cnt + 2):     # one page beyond the last one that can have entries
+                    c1, k1, recs1 = await lookup(iface, query + ["page=%d" % page, "count=%d" % cnt])
+                    worst = max(worst, k1) if k1 else 5
+                    pages.append(recs1)
+                e["pages"] = pages
+                e["pcls"] = worst
 
         for st in hist["steps"]:
             k = st["k"]
@@ -263,17 +409,22 @@ def run_history(hist):
                 await w.loop.advance_to(st["t"] * QUANTUM)
                 await lookups()
                 continue
+            if k == "flk":
+                await filtered(st)
+                continue
             # clock position of the history (ops happen at the instant reached by the last adv)
             var = st.get("var") or "ok"
             src = st.get("src") or 1
-            lt, base, x, links = st.get("lt", 0), st.get("base", 0), st.get("x", 0), st.get("links", 0)
+            lt, lx, base, x, links = st.get("lt", 0), st.get("lx", 0), st.get("base", 0), st.get("x", 0), st.get("links", 0)
             q = []
-            if lt:
+            if lx:
+                q.append("lt=" + VOCAB["lx"][lx])
+            elif lt:
                 q.append("lt=%d" % (lt * QUANTUM))
             if base:
-                q.append("base=" + base_uri(base))
-            if x:
-                q.append("et=v%d" % x)
+                q.append("base=" + VOCAB["base"][base])
+            for a in VOCAB["x"][x]:
+                q.append("%s=%s" % a)
             if var in RSVD:
                 q.append(RSVD[var])
             if var == "ltnan":
@@ -284,11 +435,10 @@ def run_history(hist):
             elif var == "ltnoval":
                 q = [y for y in q if not y.startswith("lt=")] + ["lt"]
             elif var == "base2":
-                q = [y for y in q if not y.startswith("base=")] + ["base=" + base_uri(1), "base=" + base_uri(2)]
+                q = [y for y in q if not y.startswith("base=")] + ["base=" + VOCAB["base"][1], "base=" + VOCAB["base"][2]]
             vg = GROUPS[k][var]
-            if k == "reg":
+            if k in ("reg", "sreg"):
                 ep, d = st["ep"], st["d"]
-                payload, cf = links_payload(ep or "e0", d, links), LINKFORMAT
                 if var != "noep":
                     q.insert(0, "ep=" + ep)
                 if d:
@@ -299,7 +449,9 @@ def run_history(hist):
                     q = [y for y in q if not y.startswith("d=")] + ["d=" + (d or "s1")] * 2
                 elif var == "proxy":
                     q.append("proxy=yes")
-                elif var == "nocf":
+            if k == "reg":
+                payload, cf = links_payload(links), LINKFORMAT
+                if var == "nocf":
                     cf = None
                 elif var == "badcf":
                     cf = 0
@@ -312,10 +464,25 @@ def run_history(hist):
                     if lp and (m["code"] >> 5) == 2:
                         lpath = tuple(x_.decode("utf8") for x_ in lp)
                         loc = sym(lpath)
-                        owner[loc] = (ep, d)
                         if "id" in st:
                             got[st["id"]] = lpath
-                ev("reg", src=src, ep=ep if var != "noep" else "", d=d, loc=loc, lt=lt, base=base, x=x, links=links,
+                ev("reg", src=src, ep=ep if var != "noep" else "", d=d, loc=loc, lt=lt, lx=lx, base=base, x=x, links=links,
+                   var=var, vg=vg, code=m["code"] if m else 0, cls=(m["code"] >> 5) if m else 0)
+            elif k == "sreg":
+                fetch = (wire.CONTENT, LINKFORMAT, links_payload(links))
+                if var == "fetch404":
+                    fetch = (wire.code(4, 4), None, b"")
+                elif var == "fetchcf":
+                    fetch = (wire.CONTENT, 0, links_payload(links) or b"x")
+                elif var == "fetchbadlf":
+                    fetch = (wire.CONTENT, LINKFORMAT, b"<unterminated")
+                elif var == "sbase":
+                    q.append("base=" + VOCAB["base"][1])
+                path = [".well-known", "core"] if var == "okwkc" else [".well-known", "rd"]
+                m = await request(wire.POST, path, q, b"", None, src, fetch)
+                if m is not None and (m["code"] >> 5) == 2 and "id" in st:
+                    pending[(ep, d)] = st["id"]
+                ev("sreg", src=src, ep=ep if var != "noep" else "", d=d, lt=lt, lx=lx, x=x, links=links,
                    var=var, vg=vg, code=m["code"] if m else 0, cls=(m["code"] >> 5) if m else 0)
             elif k == "upd":
                 payload, cf = b"", None
@@ -331,12 +498,11 @@ def run_history(hist):
                     cf = LINKFORMAT
                 tpath, tloc = target(st)
                 m = await request(wire.POST, tpath, q, payload, cf, src)
-                ev("upd", src=src, loc=tloc, lt=lt, base=base, x=x, var=var, vg=vg,
+                ev("upd", src=src, loc=tloc, lt=lt, lx=lx, base=base, x=x, var=var, vg=vg,
                    code=m["code"] if m else 0, cls=(m["code"] >> 5) if m else 0)
             elif k == "put":
                 tpath, tloc = target(st)
-                oep, od = owner.get(tloc, ("zz", "zz"))
-                payload, cf = links_payload(oep, od, links), LINKFORMAT
+                payload, cf = links_payload(links), LINKFORMAT
                 if var == "ep":
                     q.append("ep=e1")
                 elif var == "nocf":
@@ -344,7 +510,7 @@ def run_history(hist):
                 elif var == "badlf":
                     payload = b"<unterminated"
                 m = await request(wire.PUT, tpath, q, payload, cf, src)
-                ev("put", src=src, loc=tloc, lt=lt, base=base, x=x, links=links, var=var, vg=vg,
+                ev("put", src=src, loc=tloc, lt=lt, lx=lx, base=base, x=x, links=links, var=var, vg=vg,
                    code=m["code"] if m else 0, cls=(m["code"] >> 5) if m else 0)
             elif k == "del":
                 tpath, tloc = target(st)
